@@ -105,13 +105,13 @@ Proof.
   destruct (parser_new_ok rows cols cap rz Hr Hc) as (p' & En' & Hok). assert (p' = p) as -> by congruence.
   destruct (run_ok ops p Hok Fo) as (q' & E' & Okq). assert (q' = q) as -> by congruence.
   apply source_ok_of_invs.
-  - exact Okq.
+  - exact (parser_ok_scr _ Okq).
   - exact (history_wf rows cols cap rz ops p q Hr Hc En Fo E).
   - exact (history_wrapinv rows cols cap rz ops p q Hr Hc En Fo E).
   - exact (run_cap ops p q E (parser_new_cap _ _ _ _ _ En)).
   - exact (run_attrs_ok ops p q (parser_new_attrs_ok _ _ _ _ _ En) E).
   - now apply ObsSpec.visible_rows_off0.
-  - now apply rows_width_off0.
+  - apply rows_width_off0; [exact (parser_ok_scr _ Okq)|exact Off].
 Qed.
 
 (* ... and at any offset whose view has no row of a different width *)
@@ -125,7 +125,7 @@ Proof.
   destruct (parser_new_ok rows cols cap rz Hr Hc) as (p' & En' & Hok). assert (p' = p) as -> by congruence.
   destruct (run_ok ops p Hok Fo) as (q' & E' & Okq). assert (q' = q) as -> by congruence.
   apply source_ok_of_invs.
-  - exact Okq.
+  - exact (parser_ok_scr _ Okq).
   - exact (history_wf rows cols cap rz ops p q Hr Hc En Fo E).
   - exact (history_wrapinv rows cols cap rz ops p q Hr Hc En Fo E).
   - exact (run_cap ops p q E (parser_new_cap _ _ _ _ _ En)).
